@@ -70,15 +70,21 @@ RECURSIVE PathUp(_, _)
 PathUp(E, n) == IF HasFather(E, n) THEN <<n>> \o PathUp(E, Father(E, n)) ELSE <<n>>
 UpTo(s, m)   == LET k == CHOOSE i \in DOMAIN s : s[i] = m IN SubSeq(s, 1, k)
 Rev(s)       == [i \in DOMAIN s |-> s[Len(s) + 1 - i]]
-NodePath(N, E, a, b) ==
-  LET m  == Mrca(N, E, {a, b})
-      ua == UpTo(PathUp(E, a), m)
+NodePathVia(E, a, b, m) ==                    \* m = the deepest common ancestor of a and b
+  LET ua == UpTo(PathUp(E, a), m)
       ub == UpTo(PathUp(E, b), m)
   IN  ua \o Rev(SubSeq(ub, 1, Len(ub) - 1))
+NodePath(N, E, a, b) == NodePathVia(E, a, b, Mrca(N, E, {a, b}))
 Without(s, m) == SelectSeq(s, LAMBDA x : x # m)
 EdgeBetween(E, a, b) == CHOOSE e \in DOMAIN E : Unordered(E[e]) = {a, b}
-EdgePath(N, E, a, b) ==
-  LET p == NodePath(N, E, a, b) IN [i \in 1..(Len(p) - 1) |-> EdgeBetween(E, p[i], p[i + 1])]
+EdgesAlong(E, p) == [i \in 1..(Len(p) - 1) |-> EdgeBetween(E, p[i], p[i + 1])]
+EdgePath(N, E, a, b) == EdgesAlong(E, NodePath(N, E, a, b))
+
+\* the same definitions over a table D = [n |-> Desc(E, n)] computed once (trace
+\* validation asks hundreds of queries about one state); MrcaTableOk in Tree.tla
+\* checks that both forms agree on every valid tree of the model
+DescTable(N, E) == [n \in N |-> Desc(E, n)]
+MrcaT(D, S) == CHOOSE m \in DOMAIN D : S \subseteq D[m] /\ \A k \in DOMAIN D : S \subseteq D[k] => m \in D[k]
 
 \* ---- re-rooting: same edges, each one oriented away from the new root
 \* (the end point that stays connected to r when the edge is cut comes first)
